@@ -1050,3 +1050,326 @@ def r_timestamp_int_fields(ctx, repo):
                               'raise TypeError' % (i + 1, fn, norm(a)[:40]))
     rule.require_min(5, 'date/time fields')
     return rule
+
+
+# --------------------------------------------------------------------------------------------- R-TIMESTAMP-EXACT
+def r_timestamp_exact(ctx, repo):
+    rule = ctx.rule('R-TIMESTAMP-EXACT', 'construct_yaml_timestamp converts its digit strings with integer arithmetic only (no binary '
+                                         'floating point): every microsecond value survives dump and load')
+    f = _method(repo, 'constructor.SafeConstructor', 'construct_yaml_timestamp')
+    bad = [c for c in A.func_calls(f.node) if norm(c.func) in ('float', 'round', 'math.floor', 'math.ceil', 'decimal.Decimal')]
+    divs = [n for n in walk_function(f.node) if isinstance(n, ast.BinOp) and isinstance(n.op, ast.Div)]
+    for c in bad + divs:
+        rule.fail('%s|float|%s' % (f.qualname, A.anon_text(c, f.node, 40)), f.module.rel, c.lineno, f.qualname, norm(c)[:70],
+                  'a timestamp field goes through binary floating point (%s): about 1 %% of the microsecond values come back one '
+                  'microsecond short, so a datetime does not survive safe_dump / safe_load' % norm(c)[:40])
+    if not bad and not divs:
+        rule.ok(f.loc(), 'integer arithmetic only')
+    return rule
+
+
+# --------------------------------------------------------------------------------------------- R-ESCAPE-INTRODUCER
+def r_escape_introducer(ctx, repo):
+    """the character that *introduces* an escape on the reading side must itself be escaped on the writing side."""
+    from . import rules_emit as RE
+    rule = ctx.rule('R-ESCAPE-INTRODUCER', "the tag writers never pass '%' through unescaped: the scanner reads '%' in a tag as the "
+                                           'start of a %XX escape, so a literal percent sign has to be written as %25')
+    E = repo.cls('emitter.Emitter')
+    for name in ('prepare_tag', 'prepare_tag_prefix'):
+        f = E.methods.get(name)
+        if f is None:
+            raise AnalysisError('Emitter.%s has vanished' % name)
+        cc = RE.CharClass(repo, f)
+        v = cc.passes('%')
+        if v is False:
+            rule.ok(f.loc(cc.node), "%s escapes '%%'" % name)
+        else:
+            rule.fail('%s|percent-raw' % f.qualname, f.module.rel, cc.node.lineno, f.qualname, cc.text[:80],
+                      "%s writes a literal '%%' of the tag unescaped: the scanner takes it for the start of a %%XX escape, so "
+                      "'!a%%41b' comes back as '!aAb' and '!10%%' is rejected" % name)
+    return rule
+
+
+# --------------------------------------------------------------------------------------------- R-BUFFER-ENCAPSULATED
+READER_PRIVATE = {'buffer', 'pointer', 'raw_buffer', 'raw_decode', 'stream_pointer', 'eof'}
+
+
+def r_buffer_encapsulated(ctx, repo):
+    rule = ctx.rule('R-BUFFER-ENCAPSULATED', 'only the reader touches its buffer window (buffer, pointer, raw_buffer, eof ...): scanner, '
+                                             'parser and composer look at input through peek / prefix / forward, which refill the '
+                                             'window; a direct look at the window sees where the stream happened to be cut')
+    n = 0
+    for f in repo.all_functions(['scanner', 'parser', 'composer', 'constructor', 'resolver']):
+        first = f.params[0] if f.params else None
+        hits = [x for x in walk_function(f.node) if isinstance(x, ast.Attribute) and x.attr in READER_PRIVATE
+                and isinstance(x.value, ast.Name) and x.value.id == first and f.cls is not None]
+        n += 1
+        for x in hits:
+            rule.fail('%s|window|%s' % (f.qualname, x.attr), f.module.rel, x.lineno, f.qualname, norm(x),
+                      '%s reads self.%s directly: what is in the reader\'s window depends on how the stream delivered its data '
+                      '(e.g. a CR LF pair cut between two reads is seen as CR at the end of the buffer), so the result differs '
+                      'between str input and chunked streams' % (f.qualname, x.attr))
+        if not hits:
+            rule.ok(f.loc(), '%s: input only through peek/prefix/forward' % f.qualname)
+    rule.require_min(60, 'front-end methods')
+    return rule
+
+
+# --------------------------------------------------------------------------------------------- R-STALE-SNAPSHOT
+def r_stale_snapshot(ctx, repo):
+    """update() re-bases the window (buffer = buffer[pointer:]; pointer = 0): a value computed from pointer / buffer before a
+    refill must not be used after it."""
+    rule = ctx.rule('R-STALE-SNAPSHOT', 'in the reader no local computed from self.pointer / self.buffer before a call of update() is '
+                                        'used after it (update re-bases both)')
+    R = repo.cls('reader.Reader')
+    n = 0
+    for f in R.methods.values():
+        cfg = CFG(f.node)
+        upd = [x for x in cfg.nodes if x.ast is not None and any(
+            isinstance(y, ast.Call) and isinstance(y.func, ast.Attribute) and y.func.attr in ('update', 'update_raw')
+            and isinstance(y.func.value, ast.Name) and y.func.value.id == f.params[0] for y in own_exprs(x))]
+        if not upd:
+            continue
+        snaps = []
+        for x in cfg.nodes:
+            if x.kind == 'stmt' and isinstance(x.ast, ast.Assign) and len(x.ast.targets) == 1 and isinstance(x.ast.targets[0], ast.Name):
+                if any(isinstance(y, ast.Attribute) and y.attr in ('pointer', 'buffer') and isinstance(y.value, ast.Name)
+                       and y.value.id == f.params[0] for y in ast.walk(x.ast.value)):
+                    snaps.append(x)
+        for sdef in snaps:
+            n += 1
+            name = sdef.ast.targets[0].id
+            rd = reaching_defs(cfg, name)
+            bad = None
+            for u in upd:
+                # is the update reachable from the snapshot, and a use of the snapshot reachable from the update with this def?
+                if u not in cfg.reach([m for (m, lab) in cfg.succ[sdef]]):
+                    continue
+                after = cfg.reach([m for (m, lab) in cfg.succ[u]])
+                for x in after:
+                    if x.ast is None or x is sdef:
+                        continue
+                    if sdef in rd.get(x, set()) and any(isinstance(y, ast.Name) and y.id == name and isinstance(y.ctx, ast.Load)
+                                                       for y in own_exprs(x)):
+                        bad = x
+                        break
+                if bad:
+                    break
+            if bad is None:
+                rule.ok(f.loc(sdef.ast), '%s: %s not used across a refill' % (f.name, name))
+            else:
+                rule.fail('%s|stale|%s' % (f.qualname, A.anon_text(sdef.ast, f.node, 50)), f.module.rel, bad.lineno, f.qualname,
+                          norm(bad.ast).split('\n')[0][:80],
+                          '`%s` is computed from the window position before update() and used after it; update() drops the consumed '
+                          'part of the buffer and resets the pointer, so across a refill the value is stale (too long a prefix, a '
+                          'wrong character): results differ between str input and streams at refill boundaries' % name)
+        if not snaps:
+            n += 1
+            rule.ok(f.loc(), '%s: no snapshot of the window across update()' % f.name)
+    rule.require_min(2, 'reader methods that refill')
+    return rule
+
+
+# --------------------------------------------------------------------------------------------- R-TOKEN-READY
+def r_token_ready(ctx, repo):
+    rule = ctx.rule('R-TOKEN-READY', 'check_token / peek_token / get_token hand out the head of the token queue only after '
+                                     'need_more_tokens() has answered no (so a pending simple key has had its KEY inserted)')
+    S = repo.cls('scanner.Scanner')
+    for name in ('check_token', 'peek_token', 'get_token'):
+        f = S.methods.get(name)
+        if f is None:
+            raise AnalysisError('Scanner.%s has vanished' % name)
+        cfg = CFG(f.node)
+        settled = [(t, False) for t in cfg.nodes if t.kind == 'test' and isinstance(t.ast, ast.Call)
+                   and isinstance(t.ast.func, ast.Attribute) and t.ast.func.attr == 'need_more_tokens']
+        uses = [x for x in cfg.nodes if x.ast is not None and x.kind != 'test' and any(
+            (isinstance(y, ast.Subscript) and norm(y.value) == 'self.tokens') or
+            (isinstance(y, ast.Call) and norm(y.func) in ('self.tokens.pop', 'self.tokens.popleft')) for y in own_exprs(x))]
+        uses += [x for x in cfg.nodes if x.kind == 'test' and any(
+            isinstance(y, ast.Subscript) and norm(y.value) == 'self.tokens' for y in own_exprs(x))]
+        if not uses:
+            raise AnalysisError('%s: no use of the token queue head found' % f.qualname)
+        bad = [u for u in uses if not (settled and cfg.guarded(u, edges=settled))]
+        if bad:
+            rule.fail('%s|unsettled' % f.qualname, f.module.rel, bad[0].lineno, f.qualname, norm(bad[0].ast).split('\n')[0][:80],
+                      '%s can hand out / inspect the head of the queue on a path that did not just see need_more_tokens() answer no: '
+                      'a token that is still a possible simple key is delivered before its KEY token is inserted (KEY after its '
+                      'scalar, marks going backwards)' % name)
+        else:
+            rule.ok(f.loc(), '%s: queue head used only once the look-ahead is settled' % name)
+    return rule
+
+
+# --------------------------------------------------------------------------------------------- R-COLUMN-PER-CHAR
+def r_column_per_char(ctx, repo):
+    rule = ctx.rule('R-COLUMN-PER-CHAR', 'Reader.forward advances the column by one per character and not at all for U+FEFF (a byte '
+                                         'order mark has no width), whatever the length of the run')
+    f = _method(repo, 'reader.Reader', 'forward')
+    cfg = CFG(f.node)
+    incs = [x for x in cfg.nodes if x.kind == 'stmt' and isinstance(x.ast, ast.AugAssign) and norm(x.ast.target) == 'self.column']
+    sets = [x for x in cfg.nodes if x.kind == 'stmt' and isinstance(x.ast, ast.Assign) and any(norm(t) == 'self.column' for t in x.ast.targets)]
+    if not incs:
+        raise AnalysisError('Reader.forward: no column increment found')
+    # the character variable: assigned from a subscript of the buffer
+    chars = {x.ast.targets[0].id for x in cfg.nodes if x.kind == 'stmt' and isinstance(x.ast, ast.Assign)
+             and len(x.ast.targets) == 1 and isinstance(x.ast.targets[0], ast.Name) and isinstance(x.ast.value, ast.Subscript)
+             and not isinstance(x.ast.value.slice, ast.Slice)}
+    bom_edges = []
+    for t in cfg.nodes:
+        if t.kind == 'test' and isinstance(t.ast, ast.Compare) and len(t.ast.ops) == 1 and isinstance(t.ast.left, ast.Name) \
+                and t.ast.left.id in chars and isinstance(t.ast.comparators[0], ast.Constant) and t.ast.comparators[0].value == '\ufeff':
+            if isinstance(t.ast.ops[0], ast.NotEq):
+                bom_edges.append((t, True))
+            elif isinstance(t.ast.ops[0], ast.Eq):
+                bom_edges.append((t, False))
+    for x in incs:
+        one = isinstance(x.ast.op, ast.Add) and isinstance(x.ast.value, ast.Constant) and x.ast.value.value == 1
+        guarded = bool(bom_edges) and cfg.guarded(x, edges=bom_edges)
+        if one and guarded:
+            rule.ok(f.loc(x.ast), 'column += 1 for characters other than U+FEFF')
+        else:
+            rule.fail('%s|column|%s' % (f.qualname, A.anon_text(x.ast, f.node, 40)), f.module.rel, x.lineno, f.qualname, norm(x.ast),
+                      'the column is advanced %s: a U+FEFF inside the run is counted as a column, so every later mark on that line is '
+                      'off by one' % ('by something else than 1 per character' if not one else 'without excluding U+FEFF'))
+    for x in sets:
+        if not (isinstance(x.ast.value, ast.Constant) and x.ast.value.value == 0):
+            rule.fail('%s|column-set' % f.qualname, f.module.rel, x.lineno, f.qualname, norm(x.ast),
+                      'the column is set to something else than 0 (start of a line)')
+    return rule
+
+
+# --------------------------------------------------------------------------------------------- R-NO-MEMO
+MEMO_DECORATORS = {'lru_cache', 'cache', 'cached_property', 'functools.lru_cache', 'functools.cache', 'functools.cached_property'}
+
+
+def r_no_memo(ctx, repo):
+    rule = ctx.rule('R-NO-MEMO', 'no function of the package is memoised (functools.lru_cache / cache / cached_property): a cache shared by '
+                                 'all calls makes equal inputs come back as one shared object, keeps loaders and their streams alive, '
+                                 'and makes a result depend on earlier calls')
+    n = 0
+    for f in repo.all_functions():
+        n += 1
+        bad = []
+        for d in f.node.decorator_list:
+            t = d.func if isinstance(d, ast.Call) else d
+            if norm(t) in MEMO_DECORATORS or norm(t).split('.')[-1] in ('lru_cache', 'cached_property'):
+                bad.append(d)
+        for c in A.func_calls(f.node):
+            if norm(c.func) in MEMO_DECORATORS:
+                bad.append(c)
+        for d in bad:
+            rule.fail('%s|memo' % f.qualname, f.module.rel, d.lineno, f.qualname, norm(d)[:60],
+                      '%s is memoised with %s: the cache outlives the call (it holds `self`, i.e. the loader and its stream, and the '
+                      'constructed objects), equal scalars are returned as one shared object, and later calls see earlier results'
+                      % (f.qualname, norm(d)[:40]))
+        if not bad:
+            rule.ok(f.loc(), '%s: not memoised' % f.qualname)
+    for m in repo.modules.values():
+        if m.kind != 'py':
+            continue
+        for st in m.tree.body:
+            if isinstance(st, ast.Assign) and isinstance(st.value, ast.Call) and norm(st.value.func) in MEMO_DECORATORS:
+                rule.fail('%s|memo|module' % m.name, m.rel, st.lineno, m.name, norm(st)[:60], 'module-level memoised callable')
+    rule.require_min(200, 'functions')
+    return rule
+
+
+# --------------------------------------------------------------------------------------------- R-SETSTATE-UNCONDITIONAL
+def r_setstate_unconditional(ctx, repo):
+    rule = ctx.rule('R-SETSTATE-UNCONDITIONAL', 'set_python_instance_state calls instance.__setstate__(state) whenever the instance has '
+                                                'that method, also for an empty state (pickle\'s BUILD does: an object whose __setstate__ '
+                                                'rebuilds derived attributes must see the call)')
+    f = _method(repo, 'constructor.FullConstructor', 'set_python_instance_state')
+    inst = f.params[1]
+    cfg = CFG(f.node)
+    has = [t for t in cfg.nodes if t.kind == 'test' and M.match(M.compile_pattern("hasattr(_N_i, '__setstate__')")[1], t.ast,
+                                                                  {'_N_i': ast.Name(id=inst, ctx=ast.Load())})]
+    calls = [x for x in cfg.nodes if x.ast is not None and any(
+        isinstance(y, ast.Call) and isinstance(y.func, ast.Attribute) and y.func.attr == '__setstate__' for y in own_exprs(x))]
+    if not has or not calls:
+        raise AnalysisError('set_python_instance_state: __setstate__ protocol not found')
+    # every normal path from the entry either passes the call or leaves through the "no __setstate__" edge
+    r = cfg.reach([cfg.entry], blocked=calls, blocked_edges=[(t, False) for t in has], follow_exc=False)
+    if any(x in r for x in cfg.normal_exits()):
+        rule.fail('%s|setstate-skipped' % f.qualname, f.module.rel, f.node.lineno, f.qualname, 'instance.__setstate__(state)',
+                  'an instance that defines __setstate__ can leave set_python_instance_state without the call (e.g. when the state is '
+                  'empty): pickle calls __setstate__({}) in that case, so an object that rebuilds derived attributes there comes back '
+                  'bare')
+    else:
+        rule.ok(f.loc(), '__setstate__ is called on every path for instances that have it')
+    return rule
+
+
+# --------------------------------------------------------------------------------------------- R-TWO-PHASE-KEPT
+def r_two_phase_kept(ctx, repo):
+    """two places where the laziness of two-phase construction can be lost outside the constructors themselves."""
+    rule = ctx.rule('R-TWO-PHASE-KEPT', 'YAMLObject.from_yaml hands the two-step constructor\'s generator back unconsumed, and '
+                                        'construct_document drains postponed generators with deep construction off')
+    init = repo.modules['__init__']
+    yo = init.classes.get('YAMLObject')
+    fy = yo.methods.get('from_yaml') if yo else None
+    if fy is None:
+        raise AnalysisError('YAMLObject.from_yaml has vanished')
+    rets = [n for n in walk_function(fy.node) if isinstance(n, ast.Return)]
+    drains = [n for n in walk_function(fy.node) if (isinstance(n, ast.Call) and norm(n.func) in ('next', 'list', 'tuple'))
+              or isinstance(n, (ast.For, ast.YieldFrom, ast.Yield))]
+    good = len(rets) >= 1 and all(isinstance(r.value, ast.Call) and isinstance(r.value.func, ast.Attribute)
+                                  and r.value.func.attr == 'construct_yaml_object' for r in rets) and not drains
+    if good:
+        rule.ok(fy.loc(), 'from_yaml returns loader.construct_yaml_object(...) as it is')
+    else:
+        rule.fail('%s|drained' % fy.qualname, fy.module.rel, fy.node.lineno, fy.qualname, 'return loader.construct_yaml_object(node, cls)',
+                  'from_yaml does not return the generator of construct_yaml_object unconsumed: the object\'s state is then built '
+                  'before the object is registered for its node, so a YAMLObject that refers to itself (directly or through another '
+                  'object) is rejected as an unconstructable recursive node')
+    cd = repo.func('constructor.BaseConstructor.construct_document')
+    bad = [n for n in walk_function(cd.node) if isinstance(n, ast.Assign) and any(norm(t) == 'self.deep_construct' for t in n.targets)
+           and not (isinstance(n.value, ast.Constant) and n.value.value is False)]
+    if bad:
+        rule.fail('%s|deep' % cd.qualname, cd.module.rel, bad[0].lineno, cd.qualname, norm(bad[0]),
+                  'construct_document switches deep construction on: postponed containers are then filled before they are cached, so '
+                  'every cycle that does not start at the document root is rejected')
+    else:
+        rule.ok(cd.loc(), 'construct_document never enables deep construction')
+    return rule
+
+
+# --------------------------------------------------------------------------------------------- R-ALIAS-KEY-FRESH
+def r_alias_key_fresh(ctx, repo):
+    rule = ctx.rule('R-ALIAS-KEY-FRESH', 'a node is registered in represented_objects under self.alias_key only while that key still '
+                                         'belongs to the object being represented: no representer may have run in between (represent_data '
+                                         'of a child overwrites self.alias_key)')
+    n = 0
+    for f in repo.all_functions(['representer']):
+        if f.cls is None:
+            continue
+        cfg = None
+        stores = [x for x in walk_function(f.node) if isinstance(x, ast.Assign) and any(
+            isinstance(t, ast.Subscript) and norm(t.value) == 'self.represented_objects' and norm(t.slice) == 'self.alias_key'
+            for t in x.targets)]
+        if not stores:
+            continue
+        cfg = CFG(f.node)
+        reenter = [x for x in cfg.nodes if x.ast is not None and any(
+            isinstance(y, ast.Call) and ((isinstance(y.func, ast.Attribute) and y.func.attr in ('represent_data',)) or
+                                         (isinstance(y.func, ast.Subscript) and 'representers' in norm(y.func.value)))
+            for y in own_exprs(x))]
+        rekey = [x for x in cfg.nodes if x.kind == 'stmt' and isinstance(x.ast, ast.Assign) and any(
+            norm(t) == 'self.alias_key' for t in x.ast.targets)]
+        for s in stores:
+            n += 1
+            nodes = cfg.nodes_of(s)
+            stale = False
+            for r in reenter:
+                after = cfg.reach([m for (m, lab) in cfg.succ[r]], blocked=rekey)
+                if any(x in after for x in nodes):
+                    stale = True
+            if stale:
+                rule.fail('%s|stale-alias-key' % f.qualname, f.module.rel, s.lineno, f.qualname, norm(s)[:70],
+                          'the node is stored under self.alias_key after a representer has run: by then self.alias_key is the key of '
+                          'the last object represented inside (a child), so a later reference to that child is written as an alias of '
+                          'this container')
+            else:
+                rule.ok(f.loc(s), '%s registers its node before any child is represented' % f.name)
+    rule.require_min(3, 'alias registrations')
+    return rule
